@@ -7,4 +7,5 @@ for m in sensitivity/$ID/*.diff; do
   echo "$(basename $m): $res"
 done
 rm -rf "/verif/replays/$ID"
+./check "$ID" >/dev/null 2>&1  # regenerate the evidence file on the unchanged tree
 git -C /repo status --short
